@@ -207,6 +207,7 @@ def run(ck, tier):
     _open_guard(ck, p)
     _save_paths(ck, p)
     _config_keys(ck, p)
+    _config_source(ck, p)
     _dict_name(ck, p)
     _noread(ck, p, g)
     _externs(ck, g, par_net)
@@ -475,6 +476,56 @@ def _config_keys(ck, p):
             ck.undecided(rule, k, f.span, "no store into Config.%s found in from_lsp_config although the key \"%s\" is read" % (fld, key))
         else:
             ck.undecided(rule, k, f.loc(mine[0][1]), "could not relate the stores into Config.%s to the key \"%s\" (keys seen: %s)" % (fld, key, sorted(set().union(*[s_[2] for s_ in mine]))))
+
+
+def _config_source(ck, p):
+    """The three destinations are fields of the server's `Config`.  They are "the configured files" only while that
+    value is what the client's settings said: every store into the shared Config (through the write guard of
+    `Backend.config`) is the Ok payload of `Config::from_lsp_config`, with no second source (a fallback to the
+    built-in defaults on a settings error silently moves the dictionaries to the default locations)."""
+    rule = "R-C10-files"
+    n = 0
+    FALLBACK = {"unwrap_or", "unwrap_or_else", "unwrap_or_default", "default", "or", "or_else", "map_or", "map_or_else"}
+    for f in sorted(p.fns.values(), key=lambda g: g.name):
+        if not f.name.startswith("harper_ls::"):
+            continue
+        pv = None
+        for bi, b in enumerate(f.blocks):
+            if b["cleanup"]:
+                continue
+            for s_ in b["s"]:
+                if s_["k"] != "assign" or s_["lhs"][1:] != ["*"]:
+                    continue
+                ty = f.local_tystr(s_["lhs"][0]) or ""
+                if not re.search(r"&mut (harper_ls::)?config::Config$", ty):
+                    continue
+                op = s_["rv"].get("op") if s_["rv"]["k"] == "use" else None
+                if not isinstance(op, dict):
+                    continue
+                pv = pv or Prov(f)
+                n += 1
+                ck.saw(f)
+                roots = arg_roots(f, pv, op)
+                calls = sorted({last(norm(o[3] or o[2] or "")) for o in roots if o[0] == "call"})
+                key = "config-source:%s" % f.name.replace("harper_ls::", "").replace("::{closure#0}", "")
+                direct = {last(norm(o[3] or o[2] or "")) for o in flatten(pv.trace_operand(op)) if o[0] == "call"}
+                fb = sorted((set(calls) | direct) & FALLBACK)
+                # closures handed to the calls on the way (unwrap_or_else(|e| ..)): do they build a default?
+                for o in roots:
+                    if o[0] == "call":
+                        for a in f.blocks[o[1]]["t"]["args"]:
+                            tyx = f.local_tystr((a.get("m") or a.get("c") or [0])[0]) or ""
+                            if "{closure" in tyx:
+                                for c in p.closures_of(f.name):
+                                    if c.name.rsplit("::", 1)[-1] in tyx and any(last(norm(t["f"].get("inst") or "")) == "default" for _, t in c.calls()):
+                                        fb.append("a closure that builds Config::default()")
+                if "from_lsp_config" in calls and not fb:
+                    ck.proved(rule, key, f.loc(s_.get("ln")), "the Config that is stored is the Ok payload of Config::from_lsp_config (on the way: %s)" % calls)
+                elif fb:
+                    ck.refuted(rule, key, f.loc(s_.get("ln")), "the Config that is stored has a second source besides the client's settings (%s): when the settings are rejected (one bad key rejects the whole object) the user-dictionary, file-dictionary and statistics paths silently become the built-in defaults, and the next added word or the statistics are written to files the client never configured" % ", ".join(sorted(set(fb))))
+                else:
+                    ck.undecided(rule, key, f.loc(s_.get("ln")), "could not relate the stored Config to Config::from_lsp_config (calls on the way: %s)" % calls)
+    ck.floor(rule, "stores into the shared Config", n, 1)
 
 
 # ---- destinations of the two writers derive from the configured paths -----------------------------
